@@ -13,7 +13,7 @@ func init() {
 		ID:         "C13",
 		Title:      "The file-system directory reports success only for durable, exact files",
 		Rules:      []string{"C13.R1", "C13.R2", "C13.R3", "C13.R4", "C04.R6", "C13.R5"},
-		Decides:    "for every implementation of index.Directory.Persist in the repository, on EVERY control-flow path: a nil return is preceded, in this order and each on the success edge of the previous step, by open -> WriterTo.WriteTo -> File.Sync -> Close, with no write after the Sync; every non-nil return after a successful open has closed the handle and removed the name; the file is empty when WriteTo starts (O_TRUNC/O_EXCL in the folded open flags or a successful Truncate(0) before WriteTo); the in-memory directory installs the buffer only after WriteTo succeeded. unlink/rename sites of the whole module are confined to holders of the file's exclusive lock (the lock helper never unlinks). Persist creates or renames files only under filepath.Join(dir, fileName(kind,id)); buffers of the in-memory directory are written only before installation.",
+		Decides:    "for every implementation of index.Directory.Persist in the repository, on EVERY control-flow path: a nil return is preceded, in this order and each on the success edge of the previous step, by open -> WriterTo.WriteTo -> File.Sync -> Close, with no write after the Sync; every non-nil return after a successful open has closed the handle and removed the name; the file is empty when WriteTo starts (O_TRUNC/O_EXCL in the folded open flags or a successful Truncate(0) before WriteTo); the in-memory directory installs the buffer only after WriteTo succeeded. unlink/rename sites of the whole module are confined to holders of the file's exclusive lock (the lock helper never unlinks). Persist creates or renames files only under filepath.Join(dir, fileName(kind,id)); buffers of the in-memory directory are written only before installation. No function reachable from a Persist implementation inside the module starts a goroutine (C13.R5): nothing can touch the item after success was reported.",
 		NotCovered: "what the operating system does below open/fsync/close/unlink; that WriteTo writes the intended bytes; directory-entry durability (Directory.Sync has no call site and the property does not ask for it).",
 	})
 	registerRule(&RuleInfo{ID: "C13.R1", Title: "Persist: open -> WriteTo -> Sync -> Close on every success path; close+remove on every failure path", Floor: 2, Run: ruleC13R1,
